@@ -31,6 +31,8 @@ CLASSES = ['int', 'float', 'decimal', 'mixed', 'huge', 'highprec', 'negzero', 't
 
 
 def gen_cases(tier, seed):
+    # the processors of this property once more with assertions disabled (python -O) against a normal interpreter
+    yield {'family': 'optimized_differential', 'idx': 9 * 10 ** 6, 'seed': seed, 'spill': False, 'big': False, 'proc': 'optimized_differential', 'names': ['a'], 'selector': None}
     n = {'quick': 70, 'thorough': 1500}[tier]
     spill = {'quick': ['int', 'text', 'num_text', 'mixed'],
              'thorough': CLASSES * 3}[tier]
@@ -181,6 +183,9 @@ def run_nan(case, rows, key, reverse, batch, cfg, d, counters, cov, viol):
 
 
 def run_case(case):
+    if case['family'] == 'optimized_differential':
+        from vlib import optlab
+        return optlab.as_case_result(['sort_rows'], {'orders_checked': 0, 'permutations_checked': 0})
     c = case['family']
     rng = boot.rng(case['seed'], 'C12', c, case['idx'])
     if c == 'multi_resource':
